@@ -299,7 +299,7 @@ func runC16(r *Report) {
 			ls := ComputeLockSets(dc, nil)
 			r.Ob("R-C16-1", CallPos(c), notClosed, "cleanup handlers run only on the not-yet-closed edge of the closed flag", "Dispose.Close", "latch-tested")
 			r.Ob("R-C16-1", CallPos(c), setFirst, "the closed flag is set before the handlers run (a re-entrant or concurrent Close sees it)", "Dispose.Close", "latch-set-first")
-			r.Ob("R-C16-1", CallPos(c), ls.Held(c.(ssa.Instruction), "currentLock") == "W", "test, set and run happen under currentLock", "Dispose.Close", "latch-locked")
+			r.Ob("R-C16-1", CallPos(c), ls.Held(c.(ssa.Instruction), r.lockFor("internal/core/dispose", "Dispose", "closed", "currentLock")) == "W", "test, set and run happen under the lock of the closed flag (currentLock)", "Dispose.Close", "latch-locked")
 		}
 		n := 0
 		for _, c := range r.P.AllCalls("Dispose.runCleanHandlers") {
@@ -425,13 +425,13 @@ func runC16(r *Report) {
 				return
 			}
 			n++
-			r.Ob("R-C16-2", ci.Pos(), ls.Held(in, "reportMu") == "W", "the last-reported totals are read and written inside one section of reportMu (the close handler and the final periodic report cannot both add the same delta)", "reportTrafficStats", "report-serialised:"+CalleeOf(ci).Name)
+			r.Ob("R-C16-2", ci.Pos(), r.held(ls, in, "internal/protocol/session/tunnel", "Bridge", "reportMu") == "W", "the last-reported totals are read and written inside one section of reportMu (the close handler and the final periodic report cannot both add the same delta)", "reportTrafficStats", "report-serialised:"+CalleeOf(ci).Name)
 		})
 		if n < 4 {
 			r.Fail("R-C16-2", rt.Pos(), "accesses to lastReported* not found", "reportTrafficStats", "floor")
 		}
 		for _, c := range Calls(rt, false, "UpdatePortMappingStats") {
-			r.Ob("R-C16-2", CallPos(c), ls.Held(c.(ssa.Instruction), "reportMu") == "W", "the report itself is issued inside the same section", "reportTrafficStats", "report-serialised:update")
+			r.Ob("R-C16-2", CallPos(c), r.held(ls, c.(ssa.Instruction), "internal/protocol/session/tunnel", "Bridge", "reportMu") == "W", "the report itself is issued inside the same section", "reportTrafficStats", "report-serialised:update")
 		}
 	}
 	if sc := r.need("R-C16-2", memPkg, "Storage.StopCleanup"); sc != nil {
@@ -459,7 +459,7 @@ func runC16(r *Report) {
 				}
 				return Cont
 			}, nil)
-			r.Ob("R-C16-2", c.Pos(), running && cleared && ls.Held(in, "mu") == "W", "the cleanup stop channel is closed only while the running flag is set, the flag is then cleared, all under the storage lock", "memory.Storage.StopCleanup", "stop-closed-once")
+			r.Ob("R-C16-2", c.Pos(), running && cleared && r.held(ls, in, "internal/core/storage/memory", "Storage", "mu") == "W", "the cleanup stop channel is closed only while the running flag is set, the flag is then cleared, all under the storage lock", "memory.Storage.StopCleanup", "stop-closed-once")
 		})
 	}
 
